@@ -24,6 +24,8 @@ OT = "QtLogger::OwnThreadHandler"
 
 def run(ck):
     F = ck.facts
+    from rules.oth import resolve_roles
+    ck.notes.append("OwnThreadHandler fields by role: %s" % resolve_roles(F))
     ck.rule("C04-O1", "~OwnThreadHandler runs resetOwnThread() on every path")
     ck.rule("C04-O2", "moveToOwnThread: with an application object, aboutToQuit is connected to a slot that runs resetOwnThread(); the worker is deleted when the thread finishes")
     ck.rule("C04-O3", "resetOwnThread: quit() only after the drain loop left on pending <= 0, tested under m_mutex, which stays held through quit(), wait() and clearing m_worker")
